@@ -3840,6 +3840,13 @@ bool TMCG_OpenPGP_PrivateSubkey::Decrypt
 	else if (esk->pkalgo == TMCG_OPENPGP_PKALGO_ECDH)
 	{
 		gcry_error_t dret;
+		// an empty point (zero-length MPI) aborts inside libgcrypt
+		if (gcry_mpi_get_nbits(esk->ecepk) == 0)
+		{
+			if (verbose)
+				std::cerr << "ERROR: empty ephemeral public key" << std::endl;
+			return false;
+		}
 		if (ec_curve != "Curve25519")
 		{
 			// check whether esk->ecepk is point on curve of this key
